@@ -212,25 +212,22 @@ func runReadOrder(c *Ctx, r *RuleRun) {
 	mem := p.Field("", "DB", "memtable")
 	mgr := p.Field("", "DB", "manager")
 	var first [3]ssa.Instruction
-	eachInstr(search, func(ins ssa.Instruction) {
-		u, ok := ins.(*ssa.UnOp)
-		if !ok || u.Op != token.MUL {
-			return
+	fields3 := []*types.Var{mem, imm, mgr}
+	for _, b := range search.DomPreorder() {
+		for _, ins := range b.Instrs {
+			for idx, fv := range fields3 {
+				if first[idx] != nil {
+					continue
+				}
+				if p.loadsField(fv)(ins) {
+					first[idx] = ins
+				} else if call, ok := ins.(*ssa.Call); ok && idx > 0 && p.SiteMayReach(call, p.loadsField(fv)) {
+					// the source is consulted inside a helper
+					first[idx] = ins
+				}
+			}
 		}
-		fv, _ := fieldOfAddr(u.X)
-		idx := -1
-		switch fv {
-		case mem:
-			idx = 0
-		case imm:
-			idx = 1
-		case mgr:
-			idx = 2
-		}
-		if idx >= 0 && first[idx] == nil {
-			first[idx] = ins
-		}
-	})
+	}
 	if first[0] == nil || first[1] == nil || first[2] == nil {
 		r.Undecided(p.FnName(search), "source order", p.Pos(search.Pos()), "DB.search does not consult memtable, immutables and manager")
 	} else {
